@@ -94,6 +94,7 @@ func main() {
 	srcCfg := flag.String("cfg", "", "debug: configuration variant for -src")
 	srcEntry := flag.String("entry", "VerifRunSrc", "debug: entry for -src")
 	maxPathsFlag := flag.Int("maxpaths", 0, "debug: cap the number of paths per job")
+	noGolden := flag.Bool("nogolden", false, "skip the auxiliary example-program jobs (development only)")
 	noEvidence := flag.Bool("noevidence", false, "do not rewrite evidence/<id>.json (development only: seed trials)")
 	coverFlag := flag.Bool("cover", false, "development: report the blocks of the property's anchor files no explored path executed")
 	coverExtra := flag.String("coverfiles", "", "development: extra comma-separated files for -cover")
@@ -114,6 +115,7 @@ func main() {
 			seed = v
 		}
 	}
+	corpusSeed = seed
 	debug.SetGCPercent(200)
 	t0 := time.Now()
 	os.Chdir(filepath.Join(repoDir, "test"))
@@ -212,6 +214,9 @@ func main() {
 	var crossEv []map[string]any
 	var entriesByPkg = map[string][]string{}
 	jobs := prop.Jobs(*tier)
+	if g, ok := goldenByProp[prop.ID]; ok && !*noGolden {
+		jobs = append(jobs, goldenJobs(prop.ID, g.filter, g.what, g.modes...)...)
+	}
 	for _, j := range jobs {
 		entriesByPkg[j.Pkg] = append(entriesByPkg[j.Pkg], j.Entry)
 	}
@@ -273,7 +278,7 @@ func main() {
 			}
 		}
 		twinViol := -1
-		if len(job.Asserts) > 0 && !*noTwin {
+		if len(job.Asserts) > 0 && !*noTwin && job.Golden == nil {
 			tw, err := RunJob(prog, job, *workers, true, z3)
 			if err == nil {
 				twinViol = len(tw.Violations)
@@ -357,7 +362,9 @@ func main() {
 						}
 					}
 				}
-				if prop.Custom != nil {
+				if vv.Witness["golden-file"] != "" {
+					rr, handled = replayGolden(nat, &vv), true
+				} else if prop.Custom != nil {
 					rr, handled = prop.Custom(nat, job, &vv)
 				}
 				if !handled {
@@ -442,6 +449,7 @@ func main() {
 			"solver_time_s": res.SolverTime.Seconds(), "wall_s": res.Wall.Seconds(),
 			"reach_markers": res.Reached, "assertions_evaluated": res.Asserts, "twin_violations": twinViol,
 			"counterexample_classes": len(order), "exhaustive_within_bound": !res.Truncated && res.Inconclusive() == 0,
+			"auxiliary_concrete_job": job.Golden != nil,
 		}
 		jobsEv = append(jobsEv, je)
 
